@@ -26,4 +26,4 @@ for P in $PID $EXTRA; do
   echo "$out" | tail -1
   echo "[$NAME] detected_by_${P}_${TIER}=$([ $rc -gt 0 ] && echo yes || echo NO)"
 done
-mkdir -p $DEST && cp $SRC/demo.py $SRC/meta.json $DEST/ && git -C $WT diff > $DEST/patch.diff
+mkdir -p $DEST && for f in $SRC/*; do case $(basename $f) in patch*|__pycache__) ;; *) [ "$f" -ef "$DEST/$(basename $f)" ] || cp -r $f $DEST/ ;; esac; done; git -C $WT diff > $DEST/patch.diff
